@@ -30,6 +30,7 @@ import hostrun
 import mir2
 import mirsmt
 import report
+import second
 from mirsmt import Unsupported
 
 KEY = z3.BitVecSort(8)
@@ -478,7 +479,7 @@ def decide(mir, n, m_ns, timeout_ms=30000):
         s.add(st1.pc)
         s.add(z3.Not(claim))
         t0 = time.time()
-        r = s.check()
+        r = second.check(s, 'C19 path query')
         res["solver_s"] += time.time() - t0
         res["solver_checks"] += 1
         if r == z3.sat:
@@ -499,7 +500,7 @@ def decide(mir, n, m_ns, timeout_ms=30000):
     if res["status"] == "unsat":
         s = z3.Solver()
         s.add(z3.Not(z3.Or([z3.And(st1.pc) if st1.pc else z3.BoolVal(True) for st1, _ in outs])))
-        if s.check() != z3.unsat:
+        if second.check(s, 'C19 coverage query', True) != z3.unsat:
             res["status"] = "sat"
             res["model"] = {"note": "some input reaches no return (panic / unwinding path)", "model": str(s.model())[:400]}
         res["solver_checks"] += 1
@@ -666,7 +667,7 @@ def decide_visit(mir, script, n, e, timeout_ms=30000):
         sol.add(st1.pc)
         sol.add(z3.Not(claim))
         t0 = time.time()
-        r = sol.check()
+        r = second.check(sol, 'C19 path query')
         res["solver_s"] += time.time() - t0
         res["solver_checks"] += 1
         if r == z3.sat:
@@ -690,7 +691,7 @@ def decide_visit(mir, script, n, e, timeout_ms=30000):
         sol = z3.Solver()
         sol.add(z3.Not(z3.Or([z3.And(st1.pc) if st1.pc else z3.BoolVal(True) for st1, _ in outs])))
         res["solver_checks"] += 1
-        if sol.check() != z3.unsat:
+        if second.check(sol, 'C19 coverage query', True) != z3.unsat:
             res["status"] = "sat"
             res["model"] = {"note": "some input reaches no return (panic path)"}
     res["mir_fns"] = sorted(mach.mir_fns_run)
@@ -900,6 +901,9 @@ def run(tier, seed):
             print("  config=%s real=%s" % (json.dumps(b["config"]), json.dumps(b["real"])[:200]))
             violations += 1
     wall = time.time() - t0
+    so, so_problems = second.verdict()
+    for pr in so_problems:
+        inconclusive.append("second opinion: " + pr)
     report.write_evidence(prop, tier, seed, "model_checking", {
         "evaluations": sum(r["paths"] for r in runs + vruns) or 1, "distinct_nontrivial": max(2, len(runs) + len(vruns)),
         "rule": "one symbolic execution of ConfigFile::new per (number of listed locales, namespaces absent / number of namespaces); every MIR path is one evaluation, its result is checked against the statement by z3 for all values of the names; a final query checks that the paths cover every input",
@@ -912,6 +916,7 @@ def run(tier, seed):
         "functions_encoded": sorted({f for r in runs + vruns for f in r.get("mir_fns", [])}),
         "mir_calls_summarised": sorted({c for r in runs + vruns for c in r.get("calls", [])}),
         "bounds": "locale lists of 0..4 (thorough 5) symbolic names, namespaces absent or lists of 0, 2, 3 (thorough 4) symbolic names, default symbolic; names are 8-bit codes compared for equality only. Outside the solver's part: CfgFileVisitor::visit_map (missing fields, `inherits` validation, unknown fields), the TOML front end, which files are read (locales-dir, extensions): the concrete stage runs the real ConfigFile::new on written manifests for those.",
+        "second_opinion": so,
         "inconclusive": inconclusive,
     }, wall, [
         "std::fs::read_to_string, str::split_once on the section marker and toml::from_str::<ConfigFile> are summaries: each either fails or succeeds; on success the configuration is the symbolic one",
